@@ -39,6 +39,8 @@ def _install():
             _cap["iso"] = [int(x) for x in r[0]]
             _cap["lookup"] = np.array(net._pd2ppc_lookups["bus"]).copy()
             _cap["nrows"] = int(ppc["bus"].shape[0])
+            from pandapower.pypower.idx_brch import F_BUS, T_BUS
+            _cap["branch_ft"] = [(int(r[F_BUS].real), int(r[T_BUS].real)) for r in ppc["branch"]]
         return r
 
     wrapped._c07 = True
@@ -106,6 +108,7 @@ def _observe(net, numba):
     obs["iso"] = sorted(_cap.get("iso", [])) if "iso" in _cap else None
     obs["lookup"] = _cap.get("lookup")
     obs["nrows"] = _cap.get("nrows")
+    obs["branch_ft"] = _cap.get("branch_ft")
     obs["eg"] = []
     if obs["converged"]:
         obs["nan"] = sorted(int(b) for b, v in zip(net.bus.index, net.res_bus.vm_pu.values) if v != v)
@@ -158,6 +161,50 @@ def _zero_power_checks(net):
     return bad
 
 
+def _check_rows(ctx, net, obs, m_rows, js):
+    """row numbers (F_BUS, T_BUS at _check_connectivity) of the in-service line / trafo / trafo3w / xward branches vs the
+    positions of C07.Model's row names in all_nodes: ties the auxiliary-row numbering that C07_row_of_* and
+    C07_*_row_isolated_iff speak about to the real ppc"""
+    lk = net._pd2ppc_lookups["branch"]
+    ft = obs["branch_ft"]
+    m_l, m_t, m_t3, m_x = m_rows
+    bad = []
+    n_aux = 0
+    nb = len(net.bus)
+
+    def cmp(what, pos, impl_row, model_pair):
+        nonlocal n_aux
+        if list(impl_row) != list(model_pair):
+            bad.append("%s %d: impl rows %s model %s" % (what, pos, list(impl_row), list(model_pair)))
+        n_aux += sum(1 for r in impl_row if r >= nb)
+    if "line" in lk:
+        f = lk["line"][0]
+        for pos, ins in enumerate(net.line.in_service.values):
+            if ins:
+                cmp("line", pos, ft[f + pos], m_l[pos])
+    if "trafo" in lk:
+        f = lk["trafo"][0]
+        for pos, ins in enumerate(net.trafo.in_service.values):
+            if ins:
+                cmp("trafo", pos, ft[f + pos], m_t[pos])
+    if "trafo3w" in lk:
+        f = lk["trafo3w"][0]
+        n3 = len(net.trafo3w)
+        for pos, ins in enumerate(net.trafo3w.in_service.values):
+            if ins:
+                for side in range(3):
+                    cmp("trafo3w side %d" % side, pos, ft[f + side * n3 + pos], m_t3[pos][side])
+    if "xward" in lk:
+        f = lk["xward"][0]
+        for pos, ins in enumerate(net.xward.in_service.values):
+            if ins and bool(net.bus.in_service.at[net.xward.bus.values[pos]]):
+                cmp("xward", pos, ft[f + pos], m_x[pos])
+    ctx.corr_checked += 1
+    if bad:
+        ctx.disagreement("ppc row numbers of branch ends: " + "; ".join(bad[:4]), js)
+    ctx.count("aux_row_ends_%s" % ("0" if n_aux == 0 else "1-3" if n_aux <= 3 else "4+"))
+
+
 def _check_case(ctx, net, numba, desc, model):
     """correspondence + oracle for one observed case; `model` is the parsed run_c07 output"""
     obs = desc["_obs"]
@@ -165,7 +212,9 @@ def _check_case(ctx, net, numba, desc, model):
     isb = set(int(i) for i in net.bus.index[net.bus.in_service.values.astype(bool)])
     allb = [int(i) for i in net.bus.index]
     model_ok = True
-    model, m_eg = model
+    model, m_eg, m_rows = model
+    if numba and obs.get("branch_ft") is not None and obs["iso"] is not None:
+        _check_rows(ctx, net, obs, m_rows, js)
     if isinstance(model, cq.Err):
         ctx.corr_checked += 1
         ctx.disagreement("model says the impl raises (%s) but the generator only builds well-formed nets" % model.s, js)
@@ -290,7 +339,7 @@ def _corpus():
 
 def _term(net_term, obs):
     eg = cq.lst(["(%s, %s, %s)" % (cq.b(a), cq.b(b_), cq.q(pg)) for a, b_, pg, _ in obs["eg"]])
-    return "OL [run_c07 %s; run_c07_eg %s]" % (net_term, eg)
+    return "let n_ := %s in OL [run_c07 n_; run_c07_eg %s; run_c07_rows n_]" % (net_term, eg)
 
 
 def run(ctx):
